@@ -127,9 +127,19 @@ def expect_refuted(module, cfg, invariant, **kw):
     return r
 
 
-def prove(theorems=None, timeout=600):
+_PROOF_CACHE = {}
+
+
+def prove(theorems=None, timeout=900, strict=False):
     """Run the TLA+ proof system on spec/proofs/Proofs.tla; returns dict(obligations, discharged, wall).
-    The operator definitions copied into Proofs.tla must be textually identical to those of the specification modules."""
+    The operator definitions copied into Proofs.tla must be textually identical to those of the specification modules.
+
+    The back-end provers work under wall-clock limits, so on a loaded machine an obligation can time out although it is provable:
+    the run is repeated with stretched limits (--stretch 4, 12, 40).  The proofs supplement the checks and never decide a property:
+    if they still cannot be discharged a check records that (discharged < obligations, NOTE line) and goes on; `run.py setup`
+    (strict=True) fails instead, so a proof broken by an edit of the specification cannot go unnoticed."""
+    if "ok" in _PROOF_CACHE and not strict:
+        return _PROOF_CACHE["ok"]
     pdir = os.path.join(SPEC_DIR, "proofs")
     src = open(os.path.join(pdir, "Proofs.tla")).read()
     norm = lambda t: re.sub(r"\s+", " ", t).strip()
@@ -139,23 +149,34 @@ def prove(theorems=None, timeout=600):
             m = re.search(r"^" + nm + r"\(.*?(?=^\S)", src, re.M | re.S)
             if not m or norm(m.group(0)) not in msrc:
                 raise MachineryError(f"Proofs.tla: definition of {nm} differs from {mod}.tla")
-    work = scratch("lv_tlaps_")
+    names = re.findall(r"^THEOREM (\w+)", src, re.M)
     t0 = time.time()
-    try:
-        shutil.copy(os.path.join(pdir, "Proofs.tla"), work)
-        p = subprocess.run(["tlapm", "--cleanfp", "Proofs.tla"], cwd=work, capture_output=True, text=True, timeout=timeout)
-        out = p.stdout + p.stderr
-    except subprocess.TimeoutExpired:
-        raise MachineryError("tlapm timed out")
-    finally:
-        shutil.rmtree(work, ignore_errors=True)
-    m = re.search(r"All (\d+) obligations? proved", out)
-    if not m:
-        f = re.search(r"(\d+)/(\d+) obligations? failed", out)
-        raise MachineryError("tlapm: " + (f.group(0) if f else out[-400:]))
-    n = int(m.group(1))
-    return dict(checker="tlapm --cleanfp spec/proofs/Proofs.tla", obligations=n, discharged=n, wall_s=round(time.time() - t0, 2),
-                theorems=re.findall(r"^THEOREM (\w+)", src, re.M))
+    out, n, tries = "", 0, []
+    for stretch in (4, 12, 40):
+        work = scratch("lv_tlaps_")
+        try:
+            shutil.copy(os.path.join(pdir, "Proofs.tla"), work)
+            p = subprocess.run(["tlapm", "--cleanfp", "--stretch", str(stretch), "Proofs.tla"], cwd=work, capture_output=True, text=True, timeout=timeout)
+            out = p.stdout + p.stderr
+        except subprocess.TimeoutExpired:
+            out = "tlapm timed out"
+        finally:
+            shutil.rmtree(work, ignore_errors=True)
+        m = re.search(r"All (\d+) obligations? proved", out)
+        tries.append(stretch)
+        if m:
+            n = int(m.group(1))
+            r = dict(checker="tlapm --cleanfp --stretch <f> spec/proofs/Proofs.tla", obligations=n, discharged=n, stretch_used=stretch,
+                     wall_s=round(time.time() - t0, 2), theorems=names)
+            _PROOF_CACHE["ok"] = r
+            return r
+    f = re.search(r"(\d+)/(\d+) obligations? failed", out)
+    msg = "tlapm: " + (f.group(0) if f else out[-300:].replace("\n", " "))
+    if strict:
+        raise MachineryError(msg)
+    return dict(checker="tlapm --cleanfp --stretch <f> spec/proofs/Proofs.tla", obligations=int(f.group(2)) if f else len(names),
+                discharged=(int(f.group(2)) - int(f.group(1))) if f else 0, not_discharged=msg, stretch_tried=tries,
+                wall_s=round(time.time() - t0, 2), theorems=names)
 
 
 # ------------------------------------------------------------------------------------------------
